@@ -194,7 +194,7 @@ def _work(args):
     res = Result()
     try:
         spec = mod.gen(seed, extra)
-        case = Case(seed, spec).compile(**getattr(mod, "COMPILE_KW", {}))
+        case = Case(seed, spec).compile(**(mod.compile_kw() if hasattr(mod, "compile_kw") else {}))
         res.stats["evaluations"] += 1
         res.stats["impl_status_" + case.status] += 1
         if resp_line is not None and case.status != "schema":
